@@ -454,3 +454,44 @@ V("C12", "format-line-plus-one", "fire", (U, "    result.append(str(measurement.
 V("C12", "check-var-renamed-silent", "silent", (CHK, "        lexer_name = Languages.by_name[lexer.__class__.name]\n        if lexer_name:\n            measurements = scan_file(tokens, lexer_name)",
                                               "        language = Languages.by_name[lexer.__class__.name]\n        if language:\n            measurements = scan_file(tokens, language)"),
   "local renamed")
+
+# ------------------------------------------------------------------ C03
+V("C03", "python-header-eof", "fire", (PYL, "            if header.token_range.end >= len(tokens):\n                continue\n", ""),
+  "pre-fix: 'def f(' at end of file -> IndexError", "tokens[header.token_range.end]")
+V("C03", "python-header-guard-le", "fire", (PYL, "            if header.token_range.end >= len(tokens):", "            if header.token_range.end > len(tokens):"),
+  "guard off by one", "tokens[header.token_range.end]")
+V("C03", "python-header-guard-equiv-silent", "silent", (PYL, "            if header.token_range.end >= len(tokens):\n                continue\n            header_line_nr = tokens[header.token_range.end].location.line",
+                                                       "            if not header.token_range.end < len(tokens):\n                continue\n            header_line_nr = tokens[header.token_range.end].location.line"),
+  "same bound, other spelling")
+V("C03", "check-relative-to-unguarded", "fire", (CHK, """                    try:
+                        rel_path = abs_path.relative_to(Path.cwd())
+                        if is_excluded(rel_path, excludes_spec):
+                            continue
+                    except ValueError:
+                        pass
+""", """                    rel_path = abs_path.relative_to(Path.cwd())
+                    if is_excluded(rel_path, excludes_spec):
+                        continue
+"""), "pre-fix: check <dir outside cwd> -> ValueError", "check_command")
+V("C03", "read-file-no-fallback", "fire", (SCN, """    try:
+        with open(path) as f:
+            return f.read()
+    except UnicodeDecodeError:
+        with open(path, encoding="latin-1") as f:
+            return f.read()
+""", """    with open(path) as f:
+        return f.read()
+"""), "non-UTF-8 file crashes scan and check", "_read_file")
+V("C03", "read-file-errors-replace-silent", "silent", (SCN, "        with open(path, encoding=\"latin-1\") as f:", "        with open(path, errors=\"replace\") as f:"),
+  "another total fallback")
+V("C03", "lexer-lookup-unguarded", "fire", (CHK, "    try:\n        lexer = get_lexer_for_filename(path)\n    except ClassNotFound:\n        return\n", "    lexer = get_lexer_for_filename(path)\n"),
+  "unsupported file name crashes check", "classnotfound")
+V("C03", "by-name-unguarded", "fire", (SCN, "                if lexer_name in languages:\n                    file_entry = _scan_file(\n                        result, lexer, path, file_path, cached_report\n                    )\n                    if add_file_entry_callback:\n                        add_file_entry_callback(file_entry)",
+                                       "                if True:\n                    file_entry = _scan_file(\n                        result, lexer, path, file_path, cached_report\n                    )\n                    if add_file_entry_callback:\n                        add_file_entry_callback(file_entry)"),
+  "KeyError for a lexer without Language", "by_name-unguarded")
+V("C03", "js-name-optional", "fire", (JS, "[Optional(Keyword(\"function\")), Name(), OneOrMore(Balanced(\"(\", \")\"))]", "[Keyword(\"function\"), Optional(Name()), OneOrMore(Balanced(\"(\", \")\"))]"),
+  "anonymous 'function (' matches without a name token: StopIteration", "name-optional")
+V("C03", "lex-loop-no-step", "fire", ("codelimit/common/lexer_utils.py", "                line_start = indices[newline_index] + 1\n                newline_index += 1\n", "                line_start = indices[newline_index] + 1\n"),
+  "lexing wrapper hangs on the second line", "lex/while")
+V("C03", "scope-tokens-no-pop", "fire", (SU, "            children_token_ranges.pop(0)\n", "            pass\n"), "hangs after the first nested function", "_scope_tokens/while")
+V("C03", "unfold-self", "fire", (SU, "        result.extend(unfold_scopes(scope.children))", "        result.extend(unfold_scopes([scope]))"), "infinite recursion", "unfold_scopes")
